@@ -204,27 +204,34 @@ theorem cont_step (E : Codec) (env : Env) (hsp : env.isSpace = pyIsSpace) (enc :
   refine ⟨_, hstep.trans hp, (same_set_fld hs0 f _).symm, t0, r, ?_, ht0⟩
   cases f <;> rfl
 
+/-- the token recorded by the last line does not start a comment -/
+def TokOk (s : PState) : Prop := ∃ t, s.lastTok = some t ∧ t.head? ≠ some '#'
+
+theorem parseLoop_nil_ok (env : Env) (enc : Bytes) (n : Nat) (s s' : PState) (h : parseLoop env enc n [] s = .ok s') : s' = s := by
+  simp [parseLoop] at h; exact h.symm
+
 theorem cont_block (E : Codec) (env : Env) (hsp : env.isSpace = pyIsSpace) (enc : Bytes) (hE : CodecOk env enc E)
     (pre : Prefix) (hpre : MsgPrefix pre) (f : Fld) (more : List (Seg × List Noise))
     (hv : ∀ gn ∈ more, gn.1.Valid E ∧ ∀ z ∈ gn.2, z.Valid) (n : Nat) (s : PState)
     (hst : s.state = f.st) (v : Text) (hget : f.get s = some v) :
     ∃ s', parseLoop env enc n (contLines pre more) s = .ok s' ∧
-      Same s' (f.set s (v ++ more.flatMap fun gn => text gn.1.choices)) := by
+      Same s' (f.set s (v ++ more.flatMap fun gn => text gn.1.choices)) ∧
+      (more = [] → s' = s) ∧ (∀ gn, more.getLast? = some gn → gn.2 = [] → TokOk s') := by
   induction more generalizing n s v with
   | nil =>
-    refine ⟨s, rfl, ?_⟩
+    refine ⟨s, rfl, ?_, fun _ => rfl, by simp⟩
     simp only [List.flatMap_nil, List.append_nil, fld_set_get f s v hget]
     exact Same.refl s
   | cons gn rest ih =>
     obtain ⟨g, zs⟩ := gn
     have hgv := hv (g, zs) (by simp)
-    obtain ⟨s1, h1, hs1, _⟩ := cont_step E env hsp enc hE pre hpre f g hgv.1 (n + 1) s hst v hget
+    obtain ⟨s1, h1, hs1, t, r, ht1, ht2⟩ := cont_step E env hsp enc hE pre hpre f g hgv.1 (n + 1) s hst v hget
     obtain ⟨s2, h2, hs2⟩ := noise_loop env hsp enc zs hgv.2 (n + 1) s1
     have hs12 : Same s2 (f.set s (v ++ text g.choices)) := hs2.symm.trans hs1
     have hst2 : s2.state = f.st := by rw [hs12.2.2.2.1, fld_set_state]; exact hst
     have hget2 : f.get s2 = some (v ++ text g.choices) := by rw [same_get hs12 f, fld_get_set]
-    obtain ⟨s3, h3, hs3⟩ := ih (fun x hx => hv x (by simp [hx])) (n + 1 + zs.length) s2 hst2 (v ++ text g.choices) hget2
-    refine ⟨s3, ?_, ?_⟩
+    obtain ⟨s3, h3, hs3, hnil, hlast⟩ := ih (fun x hx => hv x (by simp [hx])) (n + 1 + zs.length) s2 hst2 (v ++ text g.choices) hget2
+    refine ⟨s3, ?_, ?_, by simp, ?_⟩
     · simp only [contLines, List.flatMap_cons, List.cons_append, parseLoop, h1]
       rw [parseLoop_append, h2]
       simpa [contLines] using h3
@@ -232,21 +239,42 @@ theorem cont_block (E : Codec) (env : Env) (hsp : env.isSpace = pyIsSpace) (enc 
       have := same_set_fld hs12 f (v ++ text g.choices ++ rest.flatMap fun gn => text gn.1.choices)
       rw [fld_set_set] at this
       simpa [List.append_assoc] using this
+    · intro gn hgn hz
+      cases rest with
+      | nil =>
+        simp at hgn; subst hgn
+        simp only at hz; subst hz
+        have e2 : s2 = s1 := parseLoop_nil_ok env enc _ s1 s2 (by simpa using h2)
+        rw [hnil rfl, e2]
+        exact ⟨t, ht1, by rw [ht2]; simp⟩
+      | cons y ys => exact hlast gn (by simpa [List.getLast?_cons_cons] using hgn) hz
 
 /-- a keyword line followed by noise and continuation lines, given what the keyword line does -/
 theorem str_block (E : Codec) (env : Env) (hsp : env.isSpace = pyIsSpace) (enc : Bytes) (hE : CodecOk env enc E)
     (pre : Prefix) (hpre : MsgPrefix pre) (f : Fld) (kw : Text) (x : StrSp) (hx : x.Valid E) (n : Nat) (s s1 : PState)
     (hkw : stepLine env enc (n + 1) (kwLine pre kw x.sep x.first) s = .ok s1)
     (hst : s1.state = f.st) (hget : f.get s1 = some (text x.first.choices)) :
-    ∃ s', parseLoop env enc n (x.lines pre kw) s = .ok s' ∧ Same s' (f.set s1 x.text) := by
+    ∃ s', parseLoop env enc n (x.lines pre kw) s = .ok s' ∧ Same s' (f.set s1 x.text) ∧
+      (TokOk s1 → x.EndsReal → TokOk s') := by
   obtain ⟨s2, h2, hs2⟩ := noise_loop env hsp enc x.firstNoise hx.2.2.2.1 (n + 1) s1
   have hst2 : s2.state = f.st := by rw [← hs2.2.2.2.1]; exact hst
   have hget2 : f.get s2 = some (text x.first.choices) := by rw [← same_get hs2 f]; exact hget
-  obtain ⟨s3, h3, hs3⟩ := cont_block E env hsp enc hE pre hpre f x.more hx.2.2.2.2 (n + 1 + x.firstNoise.length) s2 hst2 _ hget2
-  refine ⟨s3, ?_, hs3.trans (same_set_fld hs2.symm f _)⟩
-  simp only [StrSp.lines, parseLoop, hkw]
-  rw [parseLoop_append, h2]
-  simpa using h3
+  obtain ⟨s3, h3, hs3, hnil, hlast⟩ := cont_block E env hsp enc hE pre hpre f x.more hx.2.2.2.2 (n + 1 + x.firstNoise.length) s2 hst2 _ hget2
+  refine ⟨s3, ?_, hs3.trans (same_set_fld hs2.symm f _), ?_⟩
+  · simp only [StrSp.lines, parseLoop, hkw]
+    rw [parseLoop_append, h2]
+    simpa using h3
+  · intro htok hend
+    unfold StrSp.EndsReal at hend
+    cases hm : x.more.getLast? with
+    | none =>
+      rw [hm] at hend
+      have hmore : x.more = [] := by simpa [List.getLast?_eq_none_iff] using hm
+      have e2 : s2 = s1 := parseLoop_nil_ok env enc _ s1 s2 (by simpa [hend] using h2)
+      rw [hnil hmore, e2]; exact htok
+    | some gn =>
+      rw [hm] at hend
+      exact hlast gn hm hend
 
 /-! ### what the keyword lines do -/
 
@@ -386,7 +414,7 @@ theorem ct_str (pre : Prefix) (hpre : MsgPrefix pre) (x : StrSp) (hx : x.Valid E
     ∃ s' ln, parseLoop env enc n (x.lines pre "msgctxt".toList) s = .ok s' ∧
       Same s' (mk es s.header { c with msgctxt := some x.text, linenum := ln } .ct s.msgstrIndex) := by
   obtain ⟨s1, ln, h1, hs1⟩ := ct_kw E env hsp enc hE pre hpre x.sep hx.1 hx.2.1 x.first hx.2.2.1 (n + 1) s es c hr htr
-  obtain ⟨s2, h2, hs2⟩ := str_block E env hsp enc hE pre hpre .ct _ x hx n s s1 h1 hs1.2.2.2.1
+  obtain ⟨s2, h2, hs2, _⟩ := str_block E env hsp enc hE pre hpre .ct _ x hx n s s1 h1 hs1.2.2.2.1
     (by rw [same_get hs1 .ct]; rfl)
   exact ⟨s2, ln, h2, hs2.trans (same_set_fld hs1 .ct _)⟩
 
@@ -395,7 +423,7 @@ theorem mi_str (pre : Prefix) (hpre : MsgPrefix pre) (x : StrSp) (hx : x.Valid E
     ∃ s' ln, parseLoop env enc n (x.lines pre "msgid".toList) s = .ok s' ∧
       Same s' (mk es s.header { c with obsolete := pre.isObsolete, msgid := x.text, linenum := ln } .mi s.msgstrIndex) := by
   obtain ⟨s1, ln, h1, hs1⟩ := mi_kw E env hsp enc hE pre hpre x.sep hx.1 hx.2.1 x.first hx.2.2.1 (n + 1) s es c hr htr
-  obtain ⟨s2, h2, hs2⟩ := str_block E env hsp enc hE pre hpre .mi _ x hx n s s1 h1 hs1.2.2.2.1
+  obtain ⟨s2, h2, hs2, _⟩ := str_block E env hsp enc hE pre hpre .mi _ x hx n s s1 h1 hs1.2.2.2.1
     (by rw [same_get hs1 .mi]; rfl)
   exact ⟨s2, ln, h2, hs2.trans (same_set_fld hs1 .mi _)⟩
 
@@ -404,27 +432,28 @@ theorem mp_str (pre : Prefix) (hpre : MsgPrefix pre) (x : StrSp) (hx : x.Valid E
     ∃ s', parseLoop env enc n (x.lines pre "msgid_plural".toList) s = .ok s' ∧
       Same s' (mk s.entries s.header { s.cur with msgidPlural := some x.text } .mp s.msgstrIndex) := by
   obtain ⟨s1, h1, hs1⟩ := mp_kw E env hsp enc hE pre hpre x.sep hx.1 hx.2.1 x.first hx.2.2.1 (n + 1) s htr
-  obtain ⟨s2, h2, hs2⟩ := str_block E env hsp enc hE pre hpre .mp _ x hx n s s1 h1 hs1.2.2.2.1
+  obtain ⟨s2, h2, hs2, _⟩ := str_block E env hsp enc hE pre hpre .mp _ x hx n s s1 h1 hs1.2.2.2.1
     (by rw [same_get hs1 .mp]; rfl)
   exact ⟨s2, h2, hs2.trans (same_set_fld hs1 .mp _)⟩
 
 theorem ms_str (pre : Prefix) (hpre : MsgPrefix pre) (x : StrSp) (hx : x.Valid E)
     (n : Nat) (s : PState) (htr : transition .ms s.state = some .ms) :
     ∃ s', parseLoop env enc n (x.lines pre "msgstr".toList) s = .ok s' ∧
-      Same s' (mk s.entries s.header { s.cur with msgstr := some x.text } .ms s.msgstrIndex) := by
-  obtain ⟨s1, h1, hs1, _⟩ := ms_kw E env hsp enc hE pre hpre x.sep hx.1 hx.2.1 x.first hx.2.2.1 (n + 1) s htr
-  obtain ⟨s2, h2, hs2⟩ := str_block E env hsp enc hE pre hpre .ms _ x hx n s s1 h1 hs1.2.2.2.1
+      Same s' (mk s.entries s.header { s.cur with msgstr := some x.text } .ms s.msgstrIndex) ∧ (x.EndsReal → TokOk s') := by
+  obtain ⟨s1, h1, hs1, ht1⟩ := ms_kw E env hsp enc hE pre hpre x.sep hx.1 hx.2.1 x.first hx.2.2.1 (n + 1) s htr
+  obtain ⟨s2, h2, hs2, htok⟩ := str_block E env hsp enc hE pre hpre .ms _ x hx n s s1 h1 hs1.2.2.2.1
     (by rw [same_get hs1 .ms]; rfl)
-  exact ⟨s2, h2, hs2.trans (same_set_fld hs1 .ms _)⟩
+  exact ⟨s2, h2, hs2.trans (same_set_fld hs1 .ms _), htok ⟨_, ht1, by decide⟩⟩
 
 theorem mx_str (hdec : env.decimal = pyDecimal) (pre : Prefix) (hpre : MsgPrefix pre) (i : Fin 10) (x : StrSp) (hx : x.Valid E)
     (n : Nat) (s : PState) (htr : transition .mx s.state = some .mx) :
     ∃ s', parseLoop env enc n (x.lines pre (mxKw i.val)) s = .ok s' ∧
-      Same s' (mk s.entries s.header { s.cur with msgstrPlural := dictSet i.val x.text s.cur.msgstrPlural } .mx i.val) := by
-  obtain ⟨s1, h1, hs1, _⟩ := mx_kw E env hsp enc hE hdec pre hpre i x.sep hx.1 hx.2.1 x.first hx.2.2.1 (n + 1) s htr
-  obtain ⟨s2, h2, hs2⟩ := str_block E env hsp enc hE pre hpre .mx _ x hx n s s1 h1 hs1.2.2.2.1
+      Same s' (mk s.entries s.header { s.cur with msgstrPlural := dictSet i.val x.text s.cur.msgstrPlural } .mx i.val) ∧
+      (x.EndsReal → TokOk s') := by
+  obtain ⟨s1, h1, hs1, ht1⟩ := mx_kw E env hsp enc hE hdec pre hpre i x.sep hx.1 hx.2.1 x.first hx.2.2.1 (n + 1) s htr
+  obtain ⟨s2, h2, hs2, htok⟩ := str_block E env hsp enc hE pre hpre .mx _ x hx n s s1 h1 hs1.2.2.2.1
     (by rw [same_get hs1 .mx]; simp [Fld.get, mk, dictGet_dictSet])
-  refine ⟨s2, h2, hs2.trans ?_⟩
+  refine ⟨s2, h2, hs2.trans ?_, htok ⟨_, ht1, by simp [mxKw]⟩⟩
   have := same_set_fld hs1 .mx x.text
   simpa [Fld.set, mk, dictSet_dictSet] using this
 
